@@ -91,6 +91,14 @@ fn inputs(ev: Ev, d1: usize, d2: usize) -> Vec<String> {
     // and nested calls with every argument-count / separator / closer slip
     v.extend(refmodel::families::per_name(ev));
     v.extend(refmodel::families::nested_slips(ev));
+    // the families added for arithmetic slips: runs of prefix signs, integers beyond 2^53 in exact operations,
+    // literals at rounding boundaries, the longest Euclid runs
+    v.extend(refmodel::families::sign_runs(ev, 3));
+    v.extend(refmodel::families::big_integers());
+    v.extend(refmodel::families::midpoint_literals());
+    if ev == Ev::I64 {
+        v.extend(refmodel::families::fibonacci_gcd());
+    }
     v
 }
 
